@@ -1423,6 +1423,24 @@ func runSplit(c *mon.Case) {
 	r := c.R
 	L := r.PickInt([]int{1, 2, 3, 3, 4, 5, 6, 6, 7, 8, 9, 10, 11, 12, 13, 15, 16, 20, 30, 31, 33, 50, 64, 100})
 	t := genAlign(r, 1, L)
+	if r.Chance(0.12) && t.L > 0 {
+		// bytes above 0x7f (a Latin-1 or UTF-8 encoded character in the residues): columns are columns of bytes
+		for k := r.Range(1, 6); k > 0; k-- {
+			i, j := r.Intn(len(t.Rows)), r.Intn(t.L)
+			b := []byte(t.Rows[i].Seq)
+			b[j] = []byte{0xC3, 0xA9, 0x80, 0xFF, 0xE6}[r.Intn(5)]
+			t.Rows[i].Seq = string(b)
+		}
+		if r.Bool() { // ... in the same column of every row
+			j := r.Intn(t.L)
+			for i := range t.Rows {
+				b := []byte(t.Rows[i].Seq)
+				b[j] = 0xE9
+				t.Rows[i].Seq = string(b)
+			}
+		}
+		c.Count("split:bytes-above-0x7f")
+	}
 	x := &ctx{c, t}
 	pc := genPartition(r, t.L)
 	pc.Via = r.PickStr([]string{"AddRange", "parser", "parser"})
@@ -1914,6 +1932,7 @@ func main() {
 	}
 	cliMultiFloors()
 	mon.Floor("concurrent:calls", 500)
+	mon.Floor("split:bytes-above-0x7f", 500)
 	mon.Main("C04", []mon.Sub{
 		{Name: "witness", Quick: len(witnesses), Thorough: len(witnesses), Run: runWitness},
 		{Name: "window", Quick: 30000, Thorough: 1200000, Run: runWindow},
